@@ -14,6 +14,41 @@ From Helm Require Import Common.Assoc Engine.Types Engine.Eff Engine.Ops Engine.
 Import ListNotations.
 Local Open Scope prog_scope.
 
+(* Client.update never touches the hook fault *)
+Lemma kut_hfault : forall tgt k cur created pe muts,
+  hfault (fst (fst (fst (fst (k_update_targets k cur tgt created pe muts))))) = hfault k.
+Proof.
+  induction tgt as [|r t IH]; simpl; intros k cur created pe muts; auto.
+  destruct (fault_hits k VGet (rkey r)); auto.
+  destruct (aget (rkey r) (objs k)).
+  - destruct (find_res (rkey r) cur); auto.
+    destruct (patch_needed (r_fields r0) (r_fields r) f); [|apply IH].
+    destruct (fault_hits k VPatch (rkey r)); rewrite IH; auto.
+  - destruct (fault_hits k VCreate (rkey r)); auto. rewrite IH. auto.
+Qed.
+
+Lemma kud_hfault : forall dels k muts, hfault (fst (k_update_deletes k dels muts)) = hfault k.
+Proof.
+  induction dels as [|r t IH]; simpl; intros k muts; auto.
+  destruct (fault_hits k VGet (rkey r)); [rewrite IH; auto|].
+  destruct (aget (rkey r) (objs k)); [|apply IH].
+  destruct (live_keep f); [apply IH|].
+  destruct (fault_hits k VDelete (rkey r)); rewrite IH; auto.
+Qed.
+
+Lemma k_update_hfault k cur tgt : hfault (fst (fst (k_update k cur tgt))) = hfault k.
+Proof.
+  unfold k_update.
+  pose proof (kut_hfault tgt k cur [] false []) as H.
+  destruct (k_update_targets k cur tgt [] false []) as [[[[k1 hard] pe] cr] m]. simpl in H.
+  destruct (hard || pe); simpl; auto.
+  pose proof (kud_hfault (filter (fun o => negb (in_keys (rkey o) tgt)) cur) k1 m) as H2.
+  destruct (k_update_deletes k1 _ m) as [k2 m2]. simpl in *. congruence.
+Qed.
+
+Lemma nodel_none k : kfault k = None -> nodel k.
+Proof. unfold nodel. intros ->. exact I. Qed.
+
 (* ---- invariants of the fault plan under every cluster call ---- *)
 Section Mono.
   Variable rn ns : string.
@@ -88,6 +123,49 @@ Section Mono.
     apply (wrun_kinv (fun k => waitfail k = false)). intros e k0 Hw.
     destruct (kube_handle_wait e k0) as [E|E]; congruence.
   Qed.
+
+  (* the hook fault is only ever consumed: once none is pending, none ever is *)
+  Lemma k_existing_hf : forall rs k take acc, hfault (fst (k_existing rn ns k rs take acc)) = hfault k.
+  Proof.
+    induction rs as [|r t IH]; simpl; intros k take acc; auto.
+    destruct (fault_hits k VGet (rkey r)); auto.
+    destruct (aget (rkey r) (objs k)); [|apply IH].
+    destruct (take || owned_by rn ns f); [apply IH|reflexivity].
+  Qed.
+
+  Lemma k_create_hf : forall rs k ok muts, hfault (fst (fst (k_create k rs ok muts))) = hfault k.
+  Proof.
+    induction rs as [|r t IH]; simpl; intros k ok muts; auto.
+    destruct (fault_hits k VCreate (rkey r)); [now rewrite IH|].
+    destruct (amem (rkey r) (objs k)); now rewrite IH.
+  Qed.
+
+  Lemma k_delete_hf : forall rs k ok muts, hfault (fst (fst (k_delete k rs ok muts))) = hfault k.
+  Proof.
+    induction rs as [|r t IH]; simpl; intros k ok muts; auto.
+    destruct (fault_hits k VDelete (rkey r)); [now rewrite IH|].
+    destruct (amem (rkey r) (objs k)); now rewrite IH.
+  Qed.
+
+  Lemma kube_handle_nohf e k : hfault k = None -> hfault (kstate_of e k) = None.
+  Proof.
+    intros Hh. unfold ContainCluster.kstate_of. destruct e; simpl; auto.
+    - pose proof (k_existing_hf rs k take []) as H.
+      destruct (k_existing rn ns k rs take []) as [k' r]. simpl in *. congruence.
+    - destruct rs as [|x t]; auto.
+      pose proof (k_create_hf (x :: t) k true []) as H.
+      destruct (k_create k (x :: t) true []) as [[k' ok] m]. simpl in *. congruence.
+    - pose proof (k_update_hfault k cur tgt) as H.
+      destruct (k_update k cur tgt) as [[k' r] m]. simpl in *. congruence.
+    - destruct rs as [|x t]; auto.
+      pose proof (k_delete_hf (x :: t) k true []) as H.
+      destruct (k_delete k (x :: t) true []) as [[k' ok] m]. simpl in *. congruence.
+    - destruct (waitfail k) eqn:E; simpl; auto.
+    - rewrite Hh. simpl. exact Hh.
+  Qed.
+
+  Lemma wrun_nohf {A} (p : prog A) l k l' k' a : wrun p l k l' k' a -> hfault k = None -> hfault k' = None.
+  Proof. apply (wrun_kinv (fun k => hfault k = None)). intros e k0. apply kube_handle_nohf. Qed.
 End Mono.
 
 (* ---- hook runs in the object store ---- *)
@@ -343,22 +421,59 @@ Section Recover.
   (* the flags Upgrade.failRelease gives the rollback: everything off, the hook switch inherited *)
   Definition rec_flags (nh : bool) (ver : nat) : flags := mkFlags false false false false 0 nh false false false ver.
 
-  (* K6 excluded in its general form: no resource of the rollback target is live and unknown to
-     the revision the rollback starts from; K9 excluded: the target has no rollback hooks *)
+  (* K9 excluded: the rollback hooks of the revision rolled back to cannot fail — hooks are
+     disabled, or it has none, or no hook fault is pending and each of them is deleted before
+     it is created (the default policy) and sits on no key of the two manifests involved *)
+  Definition rb_good (pr : release) (curm : list res) : Prop :=
+    Forall good_hook (hooks_for PreRollback (hooks pr)) /\ Forall good_hook (hooks_for PostRollback (hooks pr)) /\
+    forall h, In h (hooks_for PreRollback (hooks pr) ++ hooks_for PostRollback (hooks pr)) ->
+              in_keys (hkey h) (manifest pr) = false /\ in_keys (hkey h) curm = false.
+
+  Definition rb_ok (nh : bool) (pr : release) (curm : list res) (k : kstate) : Prop :=
+    nh = true \/ (hooks_for PreRollback (hooks pr) = [] /\ hooks_for PostRollback (hooks pr) = []) \/
+    (hfault k = None /\ rb_good pr curm).
+
+  (* one hook run of the recovery, from a calm cluster: it succeeds, the cluster stays calm, and
+     objects change only at hook keys *)
+  Lemma rec_hooks_step fl' tgt ev l2 k l3 k3 b :
+    lupd tgt l2 = l2 -> calm k ->
+    (f_no_hooks fl' = true \/ hooks_for ev (hooks tgt) = [] \/
+     (hfault k = None /\ Forall good_hook (hooks_for ev (hooks tgt)))) ->
+    wrun (run_hooks fl' tgt ev) l2 k l3 k3 b ->
+    l3 = l2 /\ b = true /\ calm k3 /\ hfault k3 = hfault k /\
+    (forall key, ~ In key (hook_keys fl' tgt ev) -> aget key (objs k3) = aget key (objs k)).
+  Proof.
+    intros Hs [Hf Hw] Hc H.
+    destruct Hc as [E|[E|[Hh Hg]]].
+    - rewrite (run_hooks_nothing fl' tgt ev (or_introl E)) in H. wret H. repeat split; auto.
+    - rewrite (run_hooks_nothing fl' tgt ev (or_intror E)) in H. wret H. repeat split; auto.
+    - destruct (hooks_world_stable rn ns fl' tgt ev l2 k l3 k3 b Hs H) as [-> _].
+      destruct (run_hooks_calm rn ns _ _ _ _ _ _ _ _ (nodel_none _ Hf) Hh (or_intror Hg) H) as [(Eh & Ew & Efl & Hfr) Hb].
+      assert (Hf3 : kfault k3 = None) by (destruct Efl as [E|E]; congruence).
+      split; auto. split.
+      { destruct b; auto. destruct (Hb eq_refl) as [G _]. congruence. }
+      split; [split; congruence|]. split; auto.
+  Qed.
+
+  (* the automatic rollback from a calm cluster.  K6 excluded in its general form: no resource of
+     the rollback target is live and unknown to the revision the rollback starts from *)
   Lemma rollback_recovers nh ver l k l' k' out cur pr :
     ver <> 0 -> calm k ->
     max_rev_of l = Some cur -> find (fun r => Nat.eqb (rev r) ver) l = Some pr ->
     has_rev (S (rev cur)) l = false ->
     NoDup (map rkey (manifest pr)) ->
-    (nh = true \/ (hooks_for PreRollback (hooks pr) = [] /\ hooks_for PostRollback (hooks pr) = [])) ->
+    rb_ok nh pr (manifest cur) k ->
     (forall t, In t (manifest pr) -> aget (rkey t) (objs k) <> None -> in_keys (rkey t) (manifest cur) = true) ->
     wrun (rollback rn ns (rec_flags nh ver)) l k l' k' out ->
     out = OOk /\
     In (with_status (tgt_of cur pr) SDeployed) l' /\
-    exists k1 cr muts,
-      k_update k (manifest cur) (stamp_all rn ns (manifest pr)) = (k1, (true, cr), muts) /\ objs k' = objs k1.
+    exists kr k1 cr muts,
+      kfault kr = None /\
+      k_update kr (manifest cur) (stamp_all rn ns (manifest pr)) = (k1, (true, cr), muts) /\
+      forall key, in_keys key (manifest pr) = true \/ in_keys key (manifest cur) = true ->
+                  aget key (objs k') = aget key (objs k1).
   Proof.
-    intros Hver [Hnf Hwf] Hmax Hfind Hfresh Hnd Hhk Hk6 H.
+    intros Hver Hcalm Hmax Hfind Hfresh Hnd Hhk Hk6 H.
     unfold rollback in H. cbn [f_dry_run f_version f_max_history rec_flags f_cleanup] in H.
     cbv beta iota zeta in H.
     wsto H. unfold sresp, sled in H. cbn [storage_apply fst snd] in H. rewrite Hmax in H.
@@ -371,48 +486,92 @@ Section Recover.
     unfold storage_create, perform in He. wsto He. unfold sresp, sled in He. cbn [storage_apply] in He.
     change (rev tgt) with (S (rev cur)) in He. rewrite Hfresh in He. cbn [fst snd] in He. wret He.
     set (l2 := (l ++ [tgt])%list) in *.
-    assert (HP : forall fl', f_no_hooks fl' = nh ->
-                 run_hooks fl' tgt PreRollback = Ret true /\ run_hooks fl' tgt PostRollback = Ret true).
-    { intros fl' Efl. split; apply run_hooks_nothing; rewrite Efl; change (hooks tgt) with (hooks pr);
-        (destruct Hhk as [->|[E1 E2]]; [now left|right; assumption]). }
-    match type of H with context [run_hooks ?f tgt PreRollback] => destruct (HP f eq_refl) as [EP1 EP2] end.
-    rewrite EP1, EP2 in H.
-    cbn [bind negb] in H. cbv beta iota in H.
+    assert (Hs2 : lupd tgt l2 = l2).
+    { apply upd_last_stable. exact Hfresh. }
+    (* what the hypothesis on the rollback hooks says for one event, at a state without hook fault *)
+    assert (Hev : forall fl' ev kx, f_no_hooks fl' = nh -> ev = PreRollback \/ ev = PostRollback ->
+                    (hfault k = None -> hfault kx = None) ->
+                    f_no_hooks fl' = true \/ hooks_for ev (hooks tgt) = [] \/
+                    (hfault kx = None /\ Forall good_hook (hooks_for ev (hooks tgt)))).
+    { intros fl' ev kx Efl Hevs Hhx. change (hooks tgt) with (hooks pr).
+      destruct Hhk as [->|[[E1 E2]|[Hh (G1 & G2 & _)]]]; [left; exact Efl| |].
+      - right. left. destruct Hevs as [->| ->]; assumption.
+      - right. right. split; auto. destruct Hevs as [->| ->]; assumption. }
+    (* the keys of the two manifests are no hook keys *)
+    assert (Hdis : forall fl' ev key, f_no_hooks fl' = nh -> ev = PreRollback \/ ev = PostRollback ->
+                     in_keys key (manifest pr) = true \/ in_keys key (manifest cur) = true ->
+                     ~ In key (hook_keys fl' tgt ev)).
+    { intros fl' ev key Efl Hevs Hk. unfold hook_keys. rewrite Efl. change (hooks tgt) with (hooks pr).
+      destruct Hhk as [->|[[E1 E2]|[_ (_ & _ & Hd)]]]; [intros []| |].
+      - destruct nh; [intros []|]. destruct Hevs as [->| ->]; [rewrite E1|rewrite E2]; intros [].
+      - destruct nh; [intros []|]. intros Hin. apply in_map_iff in Hin. destruct Hin as (h & <- & Hh).
+        assert (Hh' : In h (hooks_for PreRollback (hooks pr) ++ hooks_for PostRollback (hooks pr))).
+        { apply in_or_app. destruct Hevs as [->| ->]; auto. }
+        destruct (Hd h Hh') as [D1 D2]. destruct Hk as [Hk|Hk]; congruence. }
+    (* the pre-rollback hooks *)
+    wbind H l3 k1 pre Hpre.
+    match type of Hpre with ContainWorld.wrun _ _ (run_hooks ?f _ _) _ _ _ _ _ => set (rfl := f) in * end.
+    destruct (rec_hooks_step rfl tgt PreRollback l2 k l3 k1 pre Hs2 Hcalm
+                (Hev rfl PreRollback k eq_refl (or_introl eq_refl) (fun E => E)) Hpre)
+      as (-> & -> & [Hnf Hwf] & Hh1 & Hfr1).
+    cbn [negb] in H. cbv beta iota in H.
     (* the update *)
     wclu H.
-    destruct (kh_update rn ns (manifest cur) (stamp_all rn ns (manifest tgt)) k) as [Er Es].
+    destruct (kh_update rn ns (manifest cur) (stamp_all rn ns (manifest tgt)) k1) as [Er Es].
     rewrite Er, Es in H. clear Er Es.
     change (manifest tgt) with (manifest pr) in H.
-    destruct (k_update k (manifest cur) (stamp_all rn ns (manifest pr))) as [[k1 [ok cr]] muts] eqn:EU.
+    destruct (k_update k1 (manifest cur) (stamp_all rn ns (manifest pr))) as [[k2 [ok cr]] muts] eqn:EU.
     cbn [fst snd] in H.
     assert (Hnd' : NoDup (map rkey (stamp_all rn ns (manifest pr)))).
     { unfold stamp_all. rewrite map_map. simpl. exact Hnd. }
     assert (Hok : ok = true).
     { destruct ok; auto. exfalso.
-      pose proof (proj1 (update_fails_iff k (manifest cur) _ Hnf Hnd')) as G. rewrite EU in G. simpl in G.
+      pose proof (proj1 (update_fails_iff k1 (manifest cur) _ Hnf Hnd')) as G. rewrite EU in G. simpl in G.
       destruct (G eq_refl) as (t & Ht & Hl & Hf).
       unfold stamp_all in Ht. apply in_map_iff in Ht. destruct Ht as (t0 & <- & Ht0).
-      apply (in_keys_find_res _ _ (Hk6 t0 Ht0 Hl)). exact Hf. }
+      assert (Hl0 : aget (rkey t0) (objs k) <> None).
+      { rewrite <- (Hfr1 (rkey t0)); [exact Hl|].
+        apply (Hdis rfl PreRollback); auto. left. now apply in_keys_In. }
+      apply (in_keys_find_res _ _ (Hk6 t0 Ht0 Hl0)). exact Hf. }
     subst ok. cbn [negb] in H. cbv beta iota in H.
-    destruct (k_update_nofault _ _ _ _ _ _ _ Hnf EU) as (Hnf1 & _ & Hw1 & _).
+    destruct (k_update_nofault _ _ _ _ _ _ _ Hnf EU) as (Hnf2 & Hh2 & Hw2 & _).
     (* the wait *)
     unfold perform in H. cbn [bind] in H. wclu H.
-    destruct (kh_wait rn ns (stamp_all rn ns (manifest pr)) k1) as (Er & Ef & Ew & Eo).
-    rewrite Er, Hw1, Hwf in H. cbn [negb] in H. cbv beta iota in H.
-    set (k2 := kstate_of rn ns (KWait (stamp_all rn ns (manifest pr))) k1) in *.
+    destruct (kh_wait rn ns (stamp_all rn ns (manifest pr)) k2) as (Er & Ef & Ew & Eo).
+    rewrite Er, Hw2, Hwf in H. cbn [negb] in H. cbv beta iota in H.
+    set (k3 := kstate_of rn ns (KWait (stamp_all rn ns (manifest pr))) k2) in *.
+    assert (Hh3 : hfault k3 = hfault k2).
+    { unfold k3, ContainCluster.kstate_of. cbn [kube_handle]. destruct (waitfail k2); reflexivity. }
+    assert (Hc3 : calm k3) by (split; [unfold nofault in Hnf2; congruence|exact Ew]).
+    (* the post-rollback hooks *)
+    wbind H l4 k4 post Hpost.
+    destruct (rec_hooks_step rfl tgt PostRollback l2 k3 l4 k4 post Hs2 Hc3
+                (Hev rfl PostRollback k3 eq_refl (or_intror eq_refl) (fun E => ltac:(congruence))) Hpost)
+      as (-> & -> & _ & _ & Hfr4).
+    cbv beta iota in H.
     (* the records *)
     wsto H. unfold sresp, sled in H. cbn [storage_apply fst snd] in H.
     wbind H l5 k5 u Hs. apply wrun_supersede_all in Hs. destruct Hs as [-> ->].
     wsto H. unfold sresp, sled in H. cbn [storage_apply] in H.
-    assert (Hh2 : has_rev (rev (with_status tgt SDeployed))
+    assert (Hh5 : has_rev (rev (with_status tgt SDeployed))
                           (supersede (filter (fun r => status_eqb (st r) SDeployed) l2) l2) = true).
     { apply has_rev_revs. rewrite revs_supersede. unfold l2, revs. rewrite map_app. apply in_or_app. right. now left. }
-    rewrite Hh2 in H. cbn [fst snd] in H. wret H.
+    rewrite Hh5 in H. cbn [fst snd] in H. wret H.
     split; auto. split.
     - fold (lupd (with_status tgt SDeployed) (supersede (filter (fun r => status_eqb (st r) SDeployed) l2) l2)).
-      pose proof (in_upd_self (with_status tgt SDeployed) _ Hh2) as G. unfold lupd in G. rewrite Hh2 in G. exact G.
-    - exists k1, cr, muts. split; auto.
+      pose proof (in_upd_self (with_status tgt SDeployed) _ Hh5) as G. unfold lupd in G. rewrite Hh5 in G. exact G.
+    - exists k1, k2, cr, muts. split; [exact Hnf|]. split; auto.
+      intros key Hk. rewrite (Hfr4 key) by (apply (Hdis rfl PostRollback); auto). now rewrite Eo.
   Qed.
+
+  (* what the recovery achieves: the new deployed revision, and the update that produced the final
+     objects at the keys of the two manifests *)
+  Definition restored' (mani : list res) (up g : release) (l' : list release) (k' : kstate) : Prop :=
+    In (with_status (tgt_of (with_status up SFailed) g) SDeployed) l' /\
+    exists kr k1 cr muts,
+      kfault kr = None /\
+      k_update kr mani (stamp_all rn ns (manifest g)) = (k1, (true, cr), muts) /\
+      forall key, in_keys key (manifest g) = true \/ in_keys key mani = true -> aget key (objs k') = aget key (objs k1).
 
   (* Upgrade.failRelease with --atomic, from a calm cluster, on a ledger l1 ++ [up] *)
   Lemma upgrade_fail_recovers fl up created l1 g k l' k' out :
@@ -420,11 +579,11 @@ Section Recover.
     NoDup (revs l1) -> (forall x, In x l1 -> rev x <> 0) -> (forall x, In x l1 -> rev x < rev up) ->
     max_rev_of (filter isgood l1) = Some g ->
     NoDup (map rkey (manifest g)) ->
-    (f_no_hooks fl = true \/ (hooks_for PreRollback (hooks g) = [] /\ hooks_for PostRollback (hooks g) = [])) ->
+    rb_ok (f_no_hooks fl) g (manifest up) k ->
     calm k ->
     (forall t, In t (manifest g) -> aget (rkey t) (objs k) <> None -> in_keys (rkey t) (manifest up) = true) ->
     wrun (upgrade_fail rn ns fl up created) (l1 ++ [up]) k l' k' out ->
-    restored rn ns (manifest up) up g l' k'.
+    restored' (manifest up) up g l' k'.
   Proof.
     intros Hat Hnd Hnz Hlt Hg HndG Hhk [Hnf Hwf] Hk6 H.
     assert (Hh : has_rev (rev up) l1 = false).
@@ -436,18 +595,19 @@ Section Recover.
     set (upF := with_status up SFailed) in *.
     set (l3 := (l1 ++ [upF])%list) in *.
     wbind H l4 k4 cleaned Hc.
-    assert (l4 = l3 /\ cleaned = true /\ kfault k4 = None /\ waitfail k4 = false /\
-            (forall key, aget key (objs k4) <> None -> aget key (objs k) <> None)) as (-> & -> & Hnf4 & Hwf4 & Hsub4).
+    assert (l4 = l3 /\ cleaned = true /\ kfault k4 = None /\ waitfail k4 = false /\ hfault k4 = hfault k /\
+            (forall key, aget key (objs k4) <> None -> aget key (objs k) <> None))
+      as (-> & -> & Hnf4 & Hwf4 & Hhf4 & Hsub4).
     { case_if Hc.
       - apply andb_true_iff in Heqb. destruct Heqb as [_ Hne].
         assert (Hne' : created <> []) by (destruct created; [discriminate|discriminate]).
         unfold perform in Hc. wclu Hc. wret Hc.
         destruct (kh_delete rn ns created k Hne') as [Er Es]. rewrite Er, Es.
         destruct (k_delete k created true []) as [[kd okd] md] eqn:ED. cbn [fst snd].
-        destruct (k_delete_nofault _ _ _ _ _ _ _ Hnf ED) as (Hn' & _ & Hw' & -> & Eo).
+        destruct (k_delete_nofault _ _ _ _ _ _ _ Hnf ED) as (Hn' & Hh' & Hw' & -> & Eo).
         repeat split; auto; try congruence.
         intros key Hl. rewrite Eo in Hl. eapply aget_delete_all_objs; eauto.
-      - wret Hc. auto. }
+      - wret Hc. repeat split; auto. }
     clear Hc. cbv beta iota delta [negb] in H.
     wsto H. unfold sresp, sled in H. cbn [storage_apply fst snd] in H.
     assert (Egood : filter (fun r => status_eqb (st r) SSuperseded || status_eqb (st r) SDeployed) l3 = filter isgood l1).
@@ -468,47 +628,16 @@ Section Recover.
       apply in_map_iff in E. destruct E as (x & Ex & Hx). specialize (Hlt x Hx). lia. }
     assert (Hk6' : forall t, In t (manifest g) -> aget (rkey t) (objs k4) <> None -> in_keys (rkey t) (manifest upF) = true).
     { intros t Ht Hl. apply Hk6; auto. }
+    assert (Hhk4 : rb_ok (f_no_hooks fl) g (manifest upF) k4).
+    { destruct Hhk as [E|[E|[E G]]]; [now left|right; now left|right; right]. split; [congruence|exact G]. }
     destruct (rollback_recovers (f_no_hooks fl) (rev g) l3 k4 l5 k5 r upF g (Hnz g Hgin) (conj Hnf4 Hwf4) Hmax3 Hfind3 Hfresh3
-                                HndG Hhk Hk6' Hroll)
-      as (_ & Hin & k1 & cr & muts & EU & Eo).
-    split; auto. exists k4, k1, cr, muts. auto.
+                                HndG Hhk4 Hk6' Hroll)
+      as (_ & Hin & kr & k1 & cr & muts & Hnfr & EU & Eo).
+    split; auto. exists kr, k1, cr, muts. auto.
   Qed.
 End Recover.
 
 (* ---- Part 3: the fault plan along the upgrade ---- *)
-Lemma nodel_none k : kfault k = None -> nodel k.
-Proof. unfold nodel. intros ->. exact I. Qed.
-
-Lemma kut_hfault : forall tgt k cur created pe muts,
-  hfault (fst (fst (fst (fst (k_update_targets k cur tgt created pe muts))))) = hfault k.
-Proof.
-  induction tgt as [|r t IH]; simpl; intros k cur created pe muts; auto.
-  destruct (fault_hits k VGet (rkey r)); auto.
-  destruct (aget (rkey r) (objs k)).
-  - destruct (find_res (rkey r) cur); auto.
-    destruct (patch_needed (r_fields r0) (r_fields r) f); [|apply IH].
-    destruct (fault_hits k VPatch (rkey r)); rewrite IH; auto.
-  - destruct (fault_hits k VCreate (rkey r)); auto. rewrite IH. auto.
-Qed.
-
-Lemma kud_hfault : forall dels k muts, hfault (fst (k_update_deletes k dels muts)) = hfault k.
-Proof.
-  induction dels as [|r t IH]; simpl; intros k muts; auto.
-  destruct (fault_hits k VGet (rkey r)); [rewrite IH; auto|].
-  destruct (aget (rkey r) (objs k)); [|apply IH].
-  destruct (live_keep f); [apply IH|].
-  destruct (fault_hits k VDelete (rkey r)); rewrite IH; auto.
-Qed.
-
-Lemma k_update_hfault k cur tgt : hfault (fst (fst (k_update k cur tgt))) = hfault k.
-Proof.
-  unfold k_update.
-  pose proof (kut_hfault tgt k cur [] false []) as H.
-  destruct (k_update_targets k cur tgt [] false []) as [[[[k1 hard] pe] cr] m]. simpl in H.
-  destruct (hard || pe); simpl; auto.
-  pose proof (kud_hfault (filter (fun o => negb (in_keys (rkey o) tgt)) cur) k1 m) as H2.
-  destruct (k_update_deletes k1 _ m) as [k2 m2]. simpl in *. congruence.
-Qed.
 
 Section Plan.
   Variable rn ns : string.
@@ -625,10 +754,6 @@ Section HooksUpgrade.
     (Forall good_hook (hooks_for PreUpgrade hks) /\ Forall good_hook (hooks_for PostUpgrade hks) /\
      forall h, In h (hooks_for PreUpgrade hks) -> in_keys (hkey h) mani = false /\ in_keys (hkey h) gm = false).
 
-  (* K9 excluded: the revision rolled back to has no rollback hooks (or hooks are disabled) *)
-  Definition rb_hooks_ok (fl : flags) (g : release) : Prop :=
-    f_no_hooks fl = true \/ (hooks_for PreRollback (hooks g) = [] /\ hooks_for PostRollback (hooks g) = []).
-
   (* the second disjunct of the K6 exclusion: the only fault is the wait — so the update, with its
      deletion phase, has gone through when the upgrade fails —, g is the deployed revision the
      upgrade started from, and no resource of g that the target omits is protected by keep *)
@@ -650,12 +775,12 @@ Section HooksUpgrade.
     max_rev_of l0 = Some last -> max_rev_of (filter isgood l0) = Some g ->
     (f_max_history fl = 0 \/ st g = SDeployed) ->
     NoDup (map rkey mani) -> NoDup (map rkey (manifest g)) ->
-    rb_hooks_ok fl g ->
+    rb_ok (f_no_hooks fl) g mani k0 ->
     (calm k0 \/ ((plan_wait k0 \/ plan_req k0) /\ up_hooks_ok fl hks mani (manifest g))) ->
     ((forall t, In t (manifest g) -> in_keys (rkey t) mani = true) \/ k6_after_deletion mani g k0) ->
     (exists y, In y l' /\ ~ In (rev y) (revs l0)) ->
     wrun (upgrade rn ns fl cid vid mani hks) l0 k0 l' k' (OErr c) ->
-    restored rn ns mani (mkRelease (S (rev last)) SPendingUpgrade cid vid mani hks) g l' k'.
+    restored' rn ns mani (mkRelease (S (rev last)) SPendingUpgrade cid vid mani hks) g l' k'.
   Proof.
     intros Hat Hdry Hnd Hnz Hlast Hg Hmh HndM HndG Hrb Hplan Hk6 Hnew H.
     set (UH := up_hooks_ok fl hks mani (manifest g)).
@@ -736,16 +861,18 @@ Section HooksUpgrade.
     assert (Hc2 : lupd current l2 = l2).
     { apply (upd_sub_stable l0 l1 current up Hnd S1 Hcur). specialize (Hlt0 _ Hcur). lia. }
     (* how the failing paths end *)
-    assert (Hfin : forall kf created lx kx o, calm kf ->
+    assert (Hrbk : forall kf, (hfault k0 = None -> hfault kf = None) -> rb_ok (f_no_hooks fl) g (manifest up) kf).
+    { intros kf Hhf. destruct Hrb as [E|[E|[E G]]]; [now left|right; now left|right; right]. split; auto. }
+    assert (Hfin : forall kf created lx kx o, calm kf -> (hfault k0 = None -> hfault kf = None) ->
               (forall t, In t (manifest g) -> aget (rkey t) (objs kf) <> None -> in_keys (rkey t) mani = true) ->
-              wrun (upgrade_fail rn ns fl up created) l2 kf lx kx o -> restored rn ns mani up g lx kx).
-    { intros kf created lx kx o Hc Hlive Hf.
+              wrun (upgrade_fail rn ns fl up created) l2 kf lx kx o -> restored' rn ns mani up g lx kx).
+    { intros kf created lx kx o Hc Hhf Hlive Hf.
       eapply (upgrade_fail_recovers rn ns fl up created l1 g kf); eauto. }
-    assert (Hfin2 : forall kf created lx kx o, calm kf ->
+    assert (Hfin2 : forall kf created lx kx o, calm kf -> (hfault k0 = None -> hfault kf = None) ->
               (forall t, In t (manifest g) -> aget (rkey t) (objs kf) <> None -> in_keys (rkey t) mani = true) ->
               wrun (bind (record_release current) (fun _ => upgrade_fail rn ns fl up created)) l2 kf lx kx o ->
-              restored rn ns mani up g lx kx).
-    { intros kf created lx kx o Hc Hlive Hf.
+              restored' rn ns mani up g lx kx).
+    { intros kf created lx kx o Hc Hhf Hlive Hf.
       wbind Hf l3 k3 u Hr. apply wrun_record_release in Hr. destruct Hr as [-> ->]. rewrite Hc2 in Hf. eauto. }
     (* K6: a failure that leaves the wait fault pending is met only under the first disjunct *)
     assert (Hk6a : forall kf, waitfail k0 = false -> forall t, In t (manifest g) -> aget (rkey t) (objs kf) <> None ->
@@ -762,8 +889,9 @@ Section HooksUpgrade.
       as (Hinv1 & Hb1 & Hrel1).
     assert (Hw1 : waitfail k1 = waitfail k0).
     { destruct Hrel1 as [[[_ A] [_ B]]|[_ (_ & E & _)]]; congruence. }
+    assert (Hhf1 : hfault k0 = None -> hfault k1 = None) by (apply (wrun_nohf rn ns _ _ _ _ _ _ Hpre)).
     destruct pre; cbn [negb] in H; cbv beta iota in H.
-    2:{ destruct (Hb1 eq_refl) as [Hc1 Hw0]. eapply Hfin; [exact Hc1|apply Hk6a; exact Hw0|exact H]. }
+    2:{ destruct (Hb1 eq_refl) as [Hc1 Hw0]. eapply Hfin; [exact Hc1|exact Hhf1|apply Hk6a; exact Hw0|exact H]. }
     (* the pre-upgrade hooks leave the objects of the two manifests alone *)
     assert (Hframe1 : calm k1 \/ (forall key, in_keys key mani = true \/ in_keys key (manifest g) = true ->
                                               aget key (objs k1) = aget key (objs k0))).
@@ -792,16 +920,20 @@ Section HooksUpgrade.
     pose proof (k_update_wait k1 curres (stamp_all rn ns mani)) as Hw2.
     destruct (k_update k1 curres (stamp_all rn ns mani)) as [[k2 [ok cr]] muts] eqn:EU. cbn [fst snd] in H, Hw2.
     destruct (inv_update rn ns UH _ _ _ _ _ _ _ HndT Hinv1 Hknown1 EU) as [Hinv2 Hb2].
+    assert (Hhf2 : hfault k0 = None -> hfault k2 = None).
+    { intros E. pose proof (k_update_hfault k1 curres (stamp_all rn ns mani)) as G. rewrite EU in G. cbn [fst] in G. rewrite G. auto. }
     destruct ok; cbn [negb] in H; cbv beta iota in H.
-    2:{ destruct (Hb2 eq_refl) as [Hc2' Hwf1]. eapply Hfin2; [exact Hc2'|apply Hk6a; congruence|exact H]. }
+    2:{ destruct (Hb2 eq_refl) as [Hc2' Hwf1]. eapply Hfin2; [exact Hc2'|exact Hhf2|apply Hk6a; congruence|exact H]. }
     (* the wait *)
     unfold perform in H. cbn [bind] in H. wclu H.
     destruct (inv_wait rn ns UH (stamp_all rn ns mani) k2 Hinv2) as [Hwf Hwt].
     destruct (kh_wait rn ns (stamp_all rn ns mani) k2) as (Er & Ef & Ew & Eo).
     set (k3 := kstate_of rn ns (KWait (stamp_all rn ns mani)) k2) in *.
+    assert (Hhf3 : hfault k0 = None -> hfault k3 = None).
+    { intros E. unfold k3, ContainCluster.kstate_of. cbn [kube_handle]. destruct (waitfail k2); cbn [fst hfault]; auto. }
     destruct (kresp_of rn ns (KWait (stamp_all rn ns mani)) k2) eqn:Ewr; cbn [negb] in H; cbv beta iota in H.
     2:{ (* the wait failed: the update, deletion phase included, has gone through *)
-        eapply Hfin2; [apply Hwf; reflexivity| |exact H].
+        eapply Hfin2; [apply Hwf; reflexivity|exact Hhf3| |exact H].
         destruct Hk6 as [Ha|((Hf0 & Hh0' & Hw0) & Hsg & Hwfm & Hnokeep)]; [intros t Ht _; auto|].
         assert (current = g) by (specialize (Hcurg Hsg); congruence). subst current.
         assert (Hf1 : kfault k1 = None).
@@ -828,7 +960,8 @@ Section HooksUpgrade.
     destruct (inv_hooks rn ns UH fl up PostUpgrade _ _ _ _ _ (HgU PostUpgrade (or_intror eq_refl)) Hwt Hpost)
       as (_ & Hb4 & _).
     destruct post; cbv beta iota in H.
-    2:{ destruct (Hb4 eq_refl) as [Hc4 _]. eapply Hfin; [exact Hc4|apply Hk6a; exact Hw0|exact H]. }
+    2:{ destruct (Hb4 eq_refl) as [Hc4 _]. eapply Hfin; [exact Hc4| |apply Hk6a; exact Hw0|exact H].
+        intros E. apply (wrun_nohf rn ns _ _ _ _ _ _ Hpost). auto. }
     (* everything succeeded: not an error *)
     exfalso.
     apply wrun_supdate in H. apply wrun_supdate in H.
@@ -842,7 +975,7 @@ End HooksUpgrade.
 (* what [restored] says about the final world *)
 Lemma restored_world rn ns mani up g l' k' :
   NoDup (map rkey (manifest g)) -> (forall r, In r (manifest g) -> NoDup (akeys (r_fields r))) ->
-  restored rn ns mani up g l' k' ->
+  restored' rn ns mani up g l' k' ->
   exists y, In y l' /\ rev y = S (rev up) /\ st y = SDeployed /\
     manifest y = manifest g /\ hooks y = hooks g /\ chart_id y = chart_id g /\ config_id y = config_id g /\
     (forall r, In r (manifest g) ->
@@ -858,9 +991,10 @@ Proof.
   destruct (update_matches _ _ _ _ _ _ Hnf Hnd' Hwf' EU) as (Ui & Uii & _).
   repeat split; auto.
   - intros r Hr. destruct (Ui (stamp rn ns r)) as (live' & Hl & Hs & _); [unfold stamp_all; now apply in_map|].
-    exists live'. rewrite Eo. rewrite rkey_stamp in Hl. auto.
+    exists live'. rewrite (Eo (rkey r)) by (left; now apply in_keys_In). rewrite rkey_stamp in Hl. auto.
   - intros x Hx Hk. specialize (Uii x Hx). rewrite in_keys_stamp_all in Uii. specialize (Uii Hk).
-    rewrite Eo. destruct (aget (rkey x) (objs kr)) as [live|]; auto.
+    rewrite (Eo (rkey x)) by (right; now apply in_keys_In).
+    destruct (aget (rkey x) (objs kr)) as [live|]; auto.
     destruct (live_keep live) eqn:Ek; auto. right. exists live. auto.
 Qed.
 
@@ -892,7 +1026,10 @@ Theorem atomic_upgrade_hooks :
     max_rev_of (filter (fun r => status_eqb (st r) SSuperseded || status_eqb (st r) SDeployed) (w_led w)) = Some g ->
     NoDup (map rkey mani) -> NoDup (map rkey (manifest g)) ->
     (forall r, In r (manifest g) -> NoDup (akeys (r_fields r))) ->
-    (f_no_hooks fl = true \/ (hooks_for PreRollback (hooks g) = [] /\ hooks_for PostRollback (hooks g) = [])) ->
+    (f_no_hooks fl = true \/ (hooks_for PreRollback (hooks g) = [] /\ hooks_for PostRollback (hooks g) = []) \/
+     (forall h, In h (hooks_for PreRollback (hooks g) ++ hooks_for PostRollback (hooks g)) ->
+                has_policy h BeforeHookCreation = true /\ String.eqb (h_kind h) "CustomResourceDefinition" = false /\
+                in_keys (rkey (h_res h)) (manifest g) = false /\ in_keys (rkey (h_res h)) mani = false)) ->
     (f_no_hooks fl = true \/
      ((forall h, In h (hooks_for PreUpgrade hks ++ hooks_for PostUpgrade hks) ->
                  has_policy h BeforeHookCreation = true /\ String.eqb (h_kind h) "CustomResourceDefinition" = false) /\
@@ -932,8 +1069,14 @@ Proof.
   assert (HK : (forall t0, In t0 (manifest g) -> in_keys (rkey t0) mani = true) \/ k6_after_deletion mani g k0).
   { destruct Hk6 as [Ha|(E1 & E2 & Hs & Hwf & Hnk)]; [now left|right].
     unfold k6_after_deletion, plan_wait, k0. cbn [kfault hfault waitfail objs]. repeat split; auto. }
+  assert (Hrb' : rb_ok (f_no_hooks fl) g mani k0).
+  { destruct Hrb as [E|[E|Hgood]]; [now left|right; now left|right; right].
+    split; [exact Hcfh|]. unfold rb_good. split; [|split].
+    - apply Forall_forall. intros h Hh. destruct (Hgood h) as (A & B & _); [apply in_or_app; now left|]. split; auto.
+    - apply Forall_forall. intros h Hh. destruct (Hgood h) as (A & B & _); [apply in_or_app; now right|]. split; auto.
+    - intros h Hh. destruct (Hgood h Hh) as (_ & _ & C & D). split; auto. }
   pose proof (atomic_upgrade_hooks_wrun rn ns fl cid vid mani hks (w_led w) k0 (w_led w') k' c last g
-                Hat Hdry Hnd Hnz Hlast Hg Hmh HndM HndG Hrb (or_intror (conj Hplan HU)) HK Hnew Hw) as R.
+                Hat Hdry Hnd Hnz Hlast Hg Hmh HndM HndG Hrb' (or_intror (conj Hplan HU)) HK Hnew Hw) as R.
   rewrite Eo. exact (restored_world _ _ _ _ _ _ _ HndG HwfG R).
 Qed.
 
@@ -967,7 +1110,8 @@ Proof.
   destruct (run_store_op_wrun _ _ _ _ _ _ _ _ H) as (k' & Hw & Eo). cbn [op_prog] in Hw.
   set (k0 := mkK (w_objs w) (cf_k cf) (cf_h cf) (cf_wait cf)) in *.
   assert (Hc : calm k0) by (unfold calm, k0; cbn [kfault waitfail]; auto).
+  assert (Hrb' : rb_ok (f_no_hooks fl) g mani k0) by (destruct Hrb as [E|E]; [now left|right; now left]).
   pose proof (atomic_upgrade_hooks_wrun rn ns fl cid vid mani hks (w_led w) k0 (w_led w') k' c last g
-                Hat Hdry Hnd Hnz Hlast Hg Hmh HndM HndG Hrb (or_introl Hc) (or_introl Hk6) Hnew Hw) as R.
+                Hat Hdry Hnd Hnz Hlast Hg Hmh HndM HndG Hrb' (or_introl Hc) (or_introl Hk6) Hnew Hw) as R.
   rewrite Eo. exact (restored_world _ _ _ _ _ _ _ HndG HwfG R).
 Qed.
